@@ -722,6 +722,23 @@ func c15Lifecycle(p *Prog, r *Report) {
 					continue
 				}
 				okW := k == kPoolRun || k == kPoolNew
+				if !okW {
+					// an unexported helper that only Run (or the constructor) calls is part of it
+					if h := p.Funcs[k]; h != nil && h.Obj != nil && !h.Obj.Exported() {
+						callers, only := 0, true
+						for ck, outs := range p.CallGraph().Out {
+							for _, callee := range outs {
+								if callee == k {
+									callers++
+									if c0 := strings.SplitN(ck, "$", 2)[0]; c0 != kPoolRun && c0 != kPoolNew {
+										only = false
+									}
+								}
+							}
+						}
+						okW = callers > 0 && only
+					}
+				}
 				r.Check(okW, "C15.d", k+"#writes p."+fv.Name(), p.pos(as), "lifecycle field written by Run / the constructor",
 					fmt.Sprintf("%s writes the pool's %s while senders and workers read it without synchronisation; only Run (before any use) and the constructor may", k, fv.Name()))
 			}
